@@ -1103,6 +1103,19 @@ func (e *specEnv) call(n *ast.CallExpr) (SVal, error) {
 			return SVal{}, err
 		}
 		return sv(Term{"(str.substr " + a.S + " " + b.S + " " + c.S + ")", SString}, types.Typ[types.String]), nil
+	case "stringof":
+		// stringof(b): string(b) for a byte slice — the same uninterpreted function of the slice's contents, offset and
+		// length that the conversion instruction denotes
+		a, err := argT(0)
+		if err != nil {
+			return SVal{}, err
+		}
+		if a.Sort != SSlice {
+			return SVal{}, fmt.Errorf("stringof needs a slice")
+		}
+		f := fx.ctx.DeclFun("stringOf", []Sort{ArraySort(SInt, SInt), SInt, SInt}, SString)
+		arr := fx.heapGet(e.st, elemKey(SInt), ArraySort(SInt, ArraySort(SInt, SInt)))
+		return sv(App(SString, f, Select(arr, SlBase(a), ArraySort(SInt, SInt)), SlOff(a), SlLen(a)), types.Typ[types.String]), nil
 	case "nth":
 		// nth(tuple, i): the i-th component of a tuple-valued spec expression (a call of a multi-result function)
 		tv0, err := e.eval(n.Args[0])
